@@ -265,6 +265,34 @@ class Check:
     def quick(self):
         return self.tier == "quick"
 
+    # -- parallel sections: a fork shares scratch, known findings and identity, collects on its own; merge() folds it back
+    def fork(self):
+        sub = Check.__new__(Check)
+        sub.__dict__.update(self.__dict__)
+        sub.tlc_jobs, sub.samples, sub.violations, sub.known_hits = [], [], [], []
+        sub.inconclusive, sub.notes, sub.assumptions, sub.gaps, sub.drift = [], {}, [], [], []
+        sub.states = sub.transitions = sub.traces = 0
+        return sub
+
+    def merge(self, sub):
+        self.tlc_jobs += sub.tlc_jobs
+        self.states += sub.states
+        self.transitions += sub.transitions
+        self.traces += sub.traces
+        for s_ in sub.samples:
+            self.sample(s_, cap=12)
+        for v in sub.violations:
+            if v["replay"] not in [x["replay"] for x in self.violations]:
+                self.violations.append(v)
+        for h in sub.known_hits:
+            if h["key"] not in [x["key"] for x in self.known_hits]:
+                self.known_hits.append(h)
+        self.inconclusive += sub.inconclusive
+        self.notes.update(sub.notes)
+        self.assumptions += [a for a in sub.assumptions if a not in self.assumptions]
+        self.gaps += sub.gaps
+        self.drift += sub.drift
+
     # -- TLC bookkeeping
     def add_tlc(self, name, res, expect_violation=False):
         """Account a TLC run. Design-level runs must be clean (res.ok); otherwise the run is
